@@ -11,7 +11,7 @@ import json
 
 from .. import common
 from ..common import Check, mk_case, snip
-from ..gen import gcshapes, churn
+from ..gen import gcshapes, churn, feat_index, hostile
 from . import C16
 
 
@@ -28,6 +28,14 @@ def corpus(ck, quick):
         body = rng.sample(names, rng.range(1, 5))
         progs.append(("churn:%d" % i, churn.program(body, rng.choice([1, 4, 32])), [],
                       [("N", C16.f64_bits(rng.choice([50, 400, 3000])))]))
+    # edge-value workloads: extreme / non-integral / ill-typed indexes and arguments reach the arithmetic whose
+    # overflow behaviour differs between profiles
+    for name, src in feat_index.programs(ck.rng.fork("index")):
+        progs.append((name, src, [], []))
+    hs, _, _ = hostile.sweep_programs(ck.rng.fork("sweep"), True)
+    ho = hostile.operator_programs(ck.rng.fork("ops"), True)
+    for name, src, m in (hs + ho)[:None if not quick else 60]:
+        progs.append((name, src, m, []))
     try:
         from ..gen import profiles
         for name, src, m in profiles.gc_workload(ck.rng.fork("profiles"), 300 if quick else 6000):
